@@ -51,6 +51,18 @@ fn plant_env(side: &mut Vec<El>, r: &mut Rng, p: &str, before: bool) {
 }
 
 pub(crate) fn gen(r: &mut Rng) -> Case {
+    // one case in twelve: the absent segment right after an input set that has a boundary or syllable member (seed C06-e: a set that
+    // matched through `$` moved the cursor twice and the element after it was never compared)
+    if r.chance(1, 12) {
+        let pre = *r.pick(&["", "a ", "V ", "C ", "[+voice] "][..]);
+        let set = *r.pick(&["{$, t}", "{t, $}", "{$, C}", "{V, $}", "{$, %}", "{%, k}", "{$}"][..]);
+        let post = *r.pick(&["", "", " a", " C"][..]);
+        let out = *r.pick(&["*", "&", "*"][..]);
+        let tail = *r.pick(&["", " / _#", " / V_", " | #_"][..]);
+        let p = *r.pick(&RESERVED);
+        let word = if r.chance(1, 2) { rand_echo_word(r, &WordCfg::default()) } else { rand_word(r, &WordCfg::default()) };
+        return Case { rule: format!("{pre}{set} {p}{post} > {out}{tail}"), unplanted: format!("{pre}{set}{post} > {out}{tail}"), word };
+    }
     let rule = rand_rule(r, &RuleCfg::default());
     let planted = plant(&rule, r);
     // a quarter of the words are built from recurring syllables, so that inputs with back-references (`%=1 1`, `C=1 V 1`) match
